@@ -41,10 +41,14 @@ func genC13(t *core.Tape, tier string) *Scenario {
 	sc.PoolFIFO = t.Bool(1, 5, "poolfifo")
 	sc.AlgoYield = t.Bool(1, 2, "algo.yield")
 	h := genHandlerCfg(t)
+	// a read limit far above every payload bounds the damage of a misframed
+	// stream (a garbage length prefix would otherwise reserve gigabytes)
+	h.ReadMax = 1 << 20
 	sc.Handlers = []HandlerCfg{h}
 	nclients := 1 + t.Choose(3, "nclients")
 	for i := 0; i < nclients; i++ {
 		c := genClientCfg(t)
+		c.ReadMax = 1 << 20
 		fixCompat(&c, &sc.Handlers[0])
 		sc.Clients = append(sc.Clients, c)
 	}
